@@ -1,0 +1,81 @@
+//go:build verif
+
+// Verification hook (add-only, compiled only with -tags verif): re-exports the
+// unexported endpointManager constructor (the one the unit tests use, with shims)
+// and read-only views of its three workload maps so that the C44 correspondence
+// harness under /verif can drive the REAL resolveWorkloadEndpoints with mock
+// tables.  Nothing here changes behaviour.
+
+package intdataplane
+
+import (
+	"os"
+
+	apiv3 "github.com/projectcalico/api/pkg/apis/projectcalico/v3"
+
+	"github.com/projectcalico/calico/felix/dataplane/common"
+	"github.com/projectcalico/calico/felix/linkaddrs"
+	"github.com/projectcalico/calico/felix/proto"
+	"github.com/projectcalico/calico/felix/routetable"
+	"github.com/projectcalico/calico/felix/rules"
+	"github.com/projectcalico/calico/felix/types"
+)
+
+// VerifC44Manager is the real endpointManager behind the methods the harness needs.
+type VerifC44Manager struct{ m *endpointManager }
+
+// VerifC44NewEndpointManager builds a real endpointManager (iptables mode, no BPF) over the given mocks.
+func VerifC44NewEndpointManager(rawTable, mangleTable, filterTable Table, renderer rules.RuleRenderer,
+	routeTable routetable.Interface, epMarkMapper rules.EndpointMarkMapper, linkAddrsMgr linkaddrs.Interface) VerifC44Manager {
+	m := newEndpointManagerWithShims(
+		&endpointManagerConfig{
+			wlInterfacePrefixes: []string{"cali"},
+			bpfAttachType:       apiv3.BPFAttachOptionTCX,
+			floatingIPsEnabled:  true,
+		},
+		rawTable, mangleTable, filterTable, renderer, routeTable, 4, epMarkMapper,
+		func(ipVersion uint8, id any, status string, extraInfo any) {},
+		func(path, value string) error { return nil },
+		func(name string) (os.FileInfo, error) { return nil, os.ErrNotExist },
+		"1",
+		nil, nil, nil,
+		common.NewCallbacks(),
+		linkAddrsMgr,
+		nil, nil,
+	)
+	return VerifC44Manager{m}
+}
+
+func (v VerifC44Manager) OnUpdate(msg any)            { v.m.OnUpdate(msg) }
+func (v VerifC44Manager) ResolveUpdateBatch() error   { return v.m.ResolveUpdateBatch() }
+func (v VerifC44Manager) CompleteDeferredWork() error { return v.m.CompleteDeferredWork() }
+
+// Active returns a copy of activeWlEndpoints.
+func (v VerifC44Manager) Active() map[types.WorkloadEndpointID]*proto.WorkloadEndpoint {
+	out := map[types.WorkloadEndpointID]*proto.WorkloadEndpoint{}
+	for k, e := range v.m.activeWlEndpoints {
+		out[k] = e
+	}
+	return out
+}
+
+// Shadowed returns a copy of shadowedWlEndpoints.
+func (v VerifC44Manager) Shadowed() map[types.WorkloadEndpointID]*proto.WorkloadEndpoint {
+	out := map[types.WorkloadEndpointID]*proto.WorkloadEndpoint{}
+	for k, e := range v.m.shadowedWlEndpoints {
+		out[k] = e
+	}
+	return out
+}
+
+// IfaceToID returns a copy of activeWlIfaceNameToID.
+func (v VerifC44Manager) IfaceToID() map[string]types.WorkloadEndpointID {
+	out := map[string]types.WorkloadEndpointID{}
+	for k, e := range v.m.activeWlIfaceNameToID {
+		out[k] = e
+	}
+	return out
+}
+
+// VerifC44WlIdsAscending calls the real wlIdsAscending.
+func VerifC44WlIdsAscending(a, b *types.WorkloadEndpointID) bool { return wlIdsAscending(a, b) }
